@@ -176,7 +176,7 @@ pub fn gated_case(p: &Profile) -> BoxedStrategy<Case> {
             }
             callers.extend(free_callers);
             let must: Vec<u8> = (k as u8..objects).collect();
-            let cfg = Cfg { pool: p0, objects, gates: k as u8, streams: 0, level: Level::Desync, unlock_points, spurious: vec![], pre_open: vec![], root_holds: true, double_wake: false, gate_keep_all: false, stream_always_register: false, keep_going_after_early_destroy: false, despawn_without_quiescence: false, unwinding_drops: false, consumer_probe_polls: false, chained_streams: false, stream_self_wakes: 0, guard_syncs: false, stream_wakes_on_drop: false, payload_bomb: false };
+            let cfg = Cfg { pool: p0, objects, gates: k as u8, streams: 0, level: Level::Desync, unlock_points, spurious: vec![], pre_open: vec![], root_holds: true, double_wake: false, gate_keep_all: false, stream_always_register: false, keep_going_after_early_destroy: false, despawn_without_quiescence: false, unwinding_drops: false, consumer_probe_polls: false, chained_streams: false, stream_self_wakes: 0, guard_syncs: false, stream_wakes_on_drop: false, payload_bomb: false, unwinding_attempts: false };
             let phase0 = Phase { callers, ..Default::default() };
             let phase1 = Phase { root: vec![RootAct::SetPoolPublic { n, atomic: nraw % 4 != 0 }], must_finish_objs: must, ..Default::default() };
             return Case { cfg, phases: vec![phase0, phase1], sched };
@@ -215,7 +215,7 @@ pub fn gated_case(p: &Profile) -> BoxedStrategy<Case> {
         let _ = first_free;
         callers.extend(free_callers);
         let must: Vec<u8> = (k as u8..objects).collect();
-        let cfg = Cfg { pool, objects, gates, streams: 0, level: Level::Desync, unlock_points, spurious: vec![], pre_open: vec![], root_holds: true, double_wake: false, gate_keep_all: false, stream_always_register: false, keep_going_after_early_destroy: false, despawn_without_quiescence: false, unwinding_drops: false, consumer_probe_polls: false, chained_streams: false, stream_self_wakes: 0, guard_syncs: false, stream_wakes_on_drop: false, payload_bomb: false };
+        let cfg = Cfg { pool, objects, gates, streams: 0, level: Level::Desync, unlock_points, spurious: vec![], pre_open: vec![], root_holds: true, double_wake: false, gate_keep_all: false, stream_always_register: false, keep_going_after_early_destroy: false, despawn_without_quiescence: false, unwinding_drops: false, consumer_probe_polls: false, chained_streams: false, stream_self_wakes: 0, guard_syncs: false, stream_wakes_on_drop: false, payload_bomb: false, unwinding_attempts: false };
         let phase0 = Phase { callers, must_finish_objs: if k > 0 { must } else { vec![] }, ..Default::default() };
         Case { cfg, phases: vec![phase0], sched }
     })
@@ -245,7 +245,7 @@ pub fn panic_case(p: &Profile) -> BoxedStrategy<Case> {
     healthy.stepw = StepW { awaitgate: 0, opengate: 0, blockongate: 0, nested_sync: 0, nested_desync: 1, nested_futdesync: 0, awaitfutsync: 0, awaitfutdesync: 0, ..StepW::default() };
     let bystanders = vec(vec(op_strategy(&healthy), 0..=3), 0..=2);
     let phase2 = vec(vec(op_strategy(&healthy), 1..=4), 1..=3);
-    (1u8..=3, 2u8..=4, 0u8..17, bystanders, phase2, sched_strategy(p.sched_bytes), prop::bool::weighted(0.3), vec(0u8..5, 1..=3), (prop::bool::weighted(0.3), vec((any::<u8>(), 0u8..4), 0..=2), prop::bool::weighted(0.2), prop::bool::weighted(0.25))).prop_map(|(pool, objects, ctx, mut by, mut ph2, sched, unlock_points, attempts, (quiet, parked, second, payload_bomb))| {
+    (1u8..=3, 2u8..=4, 0u8..17, bystanders, phase2, sched_strategy(p.sched_bytes), prop::bool::weighted(0.3), vec(0u8..5, 1..=3), (prop::bool::weighted(0.3), vec((any::<u8>(), 0u8..4), 0..=2), prop::bool::weighted(0.2), prop::bool::weighted(0.25), prop::bool::weighted(0.25))).prop_map(|(pool, objects, ctx, mut by, mut ph2, sched, unlock_points, attempts, (quiet, parked, second, payload_bomb, unwinding_attempts))| {
         // the panicking op and its runner context
         let mut callers: Vec<Vec<Op>> = vec![];
         let panic_body = vec![Step::Touch, Step::Yield, Step::Panic];
@@ -386,7 +386,7 @@ pub fn panic_case(p: &Profile) -> BoxedStrategy<Case> {
             };
             ph2.push(vec![Op::Attempt { o: 0, kind, id: 0 }]);
         }
-        let cfg = Cfg { pool, objects, gates: 2, streams: 0, level: Level::Desync, unlock_points, spurious: vec![], pre_open: vec![], root_holds: true, double_wake: false, gate_keep_all: false, stream_always_register: false, keep_going_after_early_destroy: false, despawn_without_quiescence: false, unwinding_drops: false, consumer_probe_polls: false, chained_streams: false, stream_self_wakes: 0, guard_syncs, stream_wakes_on_drop: false, payload_bomb };
+        let cfg = Cfg { pool, objects, gates: 2, streams: 0, level: Level::Desync, unlock_points, spurious: vec![], pre_open: vec![], root_holds: true, double_wake: false, gate_keep_all: false, stream_always_register: false, keep_going_after_early_destroy: false, despawn_without_quiescence: false, unwinding_drops: false, consumer_probe_polls: false, chained_streams: false, stream_self_wakes: 0, guard_syncs, stream_wakes_on_drop: false, payload_bomb, unwinding_attempts };
         let phase0 = Phase { callers, expect_panicked: if second { vec![0, 1] } else { vec![0] }, ..Default::default() };
         let phase1 = Phase { callers: ph2, capacity_probe: true, root: if stale_rewake { vec![RootAct::Rewake { g: 0 }] } else { vec![] }, ..Default::default() };
         if quiet {
@@ -675,6 +675,8 @@ pub fn labels(id: &str, case: &Case, out: &Outcome) -> Vec<String> {
     flag(s.consumer_probe_pending > 0, "consumer-polled-with-two-wakers");
     flag(s.unwinding_last_owner_drops > 0, "last-owner-dropped-while-unwinding");
     flag(case.cfg.unwinding_drops, "unwinding-drops");
+    flag(case.cfg.payload_bomb && s.panics_injected > 0, "panic-payload-with-panicking-destructor");
+    flag(case.cfg.unwinding_attempts && s.attempts_panicked > 0, "attempt-made-by-a-destructor-while-unwinding");
     flag(case.phases.iter().any(|p| p.root.iter().any(|a| matches!(a, RootAct::SetPoolPublic { .. }))), "max-changed-through-public-api");
     let _ = id;
     l
